@@ -215,6 +215,13 @@ func c12RunScript(c *Case) (out string, fails []Fail) {
 	if len(c.Z) < 3 {
 		return "badcase", nil
 	}
+	defer func() {
+		// name the input in every failure: outputs, pooling threshold, fields, then the operations
+		// (1 n = NewRecord of n bytes, 2 h u = fill handle h, 3 h = Release handle h)
+		for i := range fails {
+			fails[i].Desc += fmt.Sprintf("; allocator script outputs=%d minPool=%d fields=%d ops=%v", c.Z[0], c.Z[1], c.Z[2], c.Z[3:])
+		}
+	}()
 	nOut, minPool, maxFields := int(c.Z[0]), int(c.Z[1]), int(c.Z[2])
 	ops := c.Z[3:]
 	logger.SetLogLevel(logger.FatalLevel)
